@@ -84,7 +84,7 @@ def build():
     def del_bad(axis):
         def bad(ex, env):
             n, st, size, start = del_args(env, axis)
-            return z3.Or(z3.And(z3.Not(st.isnone), z3.Or(st.val.t < 0, st.val.t >= size)), n < 1, start < 0, start + n > size)
+            return z3.Or(z3.And(z3.Not(st.isnone), z3.Or(st.val.t < 0, st.val.t >= size)), n < 0, start < 0, start + n > size)
         return bad
 
     def del_post(axis):
@@ -251,7 +251,7 @@ def build():
         def bad(ex, env):
             n, st = T(env["g_count"]), env["g_start"]
             size = env["nr0"].t if axis == "row" else env["nc0"].t
-            return z3.Or(z3.And(z3.Not(st.isnone), z3.Or(st.val.t < 0, st.val.t >= size)), n < 1)
+            return z3.Or(z3.And(z3.Not(st.isnone), z3.Or(st.val.t < 0, st.val.t >= size)), n < 0)
         return bad
 
     def new_cells_row(ex, env):
